@@ -393,6 +393,7 @@ type scopeCfg struct {
 	adds     bool // add(k) events
 	hand     bool // build / add-hand / add-waiting-hand events
 	times    []time.Duration
+	jointStart bool // every region starts in the joint state (a leader change interrupted somebody's joint operator)
 }
 
 // ---------------------------------------------------------------- model
@@ -564,6 +565,9 @@ func (m *model) Reset() {
 	for i := 0; i < m.cfg.regions; i++ {
 		id := regionIDs[i]
 		r := regionsim.New(id, []regionsim.Peer{{ID: id*10 + 1, Store: 1, Role: roleV}, {ID: id*10 + 2, Store: 2, Role: roleV}, {ID: id*10 + 3, Store: 3, Role: roleV}}, 1)
+		if m.cfg.jointStart {
+			r = regionsim.New(id, []regionsim.Peer{{ID: id*10 + 1, Store: 1, Role: roleV}, {ID: id*10 + 2, Store: 2, Role: roleDe}, {ID: id*10 + 3, Store: 3, Role: roleV}, {ID: id*10 + 4, Store: 4, Role: roleIn}}, 1)
+		}
 		m.sims = append(m.sims, r)
 		m.views = append(m.views, r.Clone())
 		m.mail = append(m.mail, nil)
@@ -1175,6 +1179,16 @@ func (m *model) observe(pre *snapshot, what string) *hist.Violation {
 		}
 	}
 	msgs := m.hbs.VerifDrain()
+	// the stream queues message objects and fills in region id, epoch and target peer when they
+	// are queued: an object queued twice means that the command queued first now carries the
+	// address of the second one
+	for i := range msgs {
+		for j := i + 1; j < len(msgs); j++ {
+			if msgs[i] == msgs[j] {
+				return bad("command-misaddressed", "after %s: one message object was queued twice (positions %d and %d of %d): the command queued first was overwritten and is now %s for region %d", what, i, j, len(msgs), cmdStr(msgs[i]), msgs[i].GetRegionId())
+			}
+		}
+	}
 	got := make([]int, m.cfg.regions)
 	used := make([][]bool, m.cfg.regions)
 	for i := range used {
@@ -1748,6 +1762,22 @@ func scopeMerge() *scopeCfg {
 		foreign: []foreignDef{fAddLearner(0, 5), fAddLearner(1, 5)}}
 }
 
+// scopeLeaveJoint: two regions are in the joint state and get a leave-joint operator each; a
+// push re-sends both commands in one call.
+func scopeLeaveJoint() *scopeCfg {
+	leave := func(r int) tmpl {
+		return tmpl{name: fmt.Sprintf("leave-joint(r%d)", regionIDs[r]), region: r, can: func(m *model) bool { return m.views[r].InJoint() }, build: func(m *model) ([]*operator.Operator, error) {
+			v := m.viewInfo(r)
+			if !core.IsInJointState(v.GetPeers()...) {
+				return nil, fmt.Errorf("not in joint state")
+			}
+			return one(operator.CreateLeaveJointStateOperator("c09-leave-joint", m.cl, v))
+		}}
+	}
+	return &scopeCfg{name: "2regions/leave-joint", mode: modeJoint, regions: 2, maxBuilt: 2, adds: true, hand: false, jointStart: true, times: []time.Duration{sec4},
+		tmpls: []tmpl{leave(0), leave(1)}}
+}
+
 // scopeMergeTimeout: the merge pair alone, long enough for: admitted, executed by the
 // store, timed out (noticed by a scheduler round), source region gone, pushed.
 func scopeMergeTimeout() *scopeCfg {
@@ -1789,6 +1819,7 @@ func main() {
 			mk(scopeAPI, "quick", 5, ""),
 			mk(scopeMerge, "quick", 5, ""),
 			mk(scopeMergeTimeout, "quick", 8, ""),
+			mk(scopeLeaveJoint, "quick", 6, ""),
 			mk(runsJ, "quick", 5, ""),
 			mk(runsO, "quick", 5, ""),
 			mk(runsP, "quick", 5, ""),
